@@ -363,8 +363,8 @@ def _run_func(case):
         f = lambda xi: W["IWP"](_arr(xi), jx0, jsig, jdt, jasp)
     else:
         f = lambda xi: W["OUP"](_arr(xi), jx0, jsig, jgam, jdt)
-    tag = "func|dt=%s%s|sigma=%s|gamma=%s|asperity=%s" % (
-        _form(dt), "" if _uniform(dt) else "-nonuniform", _form(sigma), _form(gamma), _form(asp))
+    tag = "func|dt=%s%s|params=%s" % (_form(dt), "" if _uniform(dt) else "-nonuniform",
+                                      "per-step" if "array" in (_form(sigma), _form(gamma), _form(asp)) else "const")
     b, J, lin = _affine(f, shape, case["seed"])
     if b.shape != ((N + 1, 2) if d == 2 else (N + 1,)):
         return bad("%s: output shape %s for %d steps" % (proc, b.shape, N), finding_key="%s|shape|%s" % (proc, tag))
@@ -543,8 +543,8 @@ def _run_model(case):
             model = jft.OrnsteinUhlenbeckProcess(sig_arg, gam_arg, x0=x0_arg, **kw_dt)
     except NotImplementedError as e:
         return skip("factory rejects configuration: %s" % e)
-    tag = "model|dt=%s|sigma=%s|gamma=%s|asperity=%s|x0=%s" % (case["dt"], case["sigma"], case.get("gamma"),
-                                                              case.get("asperity"), x0f)
+    forms = {case["sigma"], case.get("gamma"), case.get("asperity")} - {None, "float"}
+    tag = "model|dt=%s|x0=%s|params=%s" % (case["dt"], x0f, "+".join(sorted(forms)) or "float")
     hyper = sig_keys + gam_keys + asp_keys
     dom = {k: tuple(v.shape) for k, v in model.domain.items()}
     want = {pname: (N, 2) if d == 2 else (N,)}
